@@ -15,6 +15,17 @@ the same draws.  Streams (counted in the evidence):
                holds, otherwise counted as `tie` and left to the predicate;
 * oracle     – large batches, default (0.04) and random proportions, warps beyond half the
                length, orders 1-3, genuine seeds: only the property predicate.
+
+Input classes every stream is crossed with (improvement round): feature dtype
+float32/float64/float16, feature memory layout (contiguous, transposed storage, strided slice
+with gaps, batch slice with a storage offset, batch-expanded stride 0), lengths None / int64 /
+int32, module called directly or through a parent module whose train()/eval() is toggled, an
+enumerated grid "exactly one of the eight limits is 0, all others on" (+ all on / all off), an
+enumerated edge-size grid (T = 1, F = 1, elements of length 1) for orders 1-3, and a stream of
+*user-supplied* parameter tuples handed to apply_parameters (kind "params": knots on / beyond the
+pinned ends, masks [0,len), [len,len), width 0, inside the padding, disabled steps as empty
+tensors or None).  warp_1d_grid is called on batches (rows of different length) through the
+functional and the Warp1DGrid module, with long and float lengths.
 """
 import contextlib
 import itertools
@@ -114,6 +125,33 @@ def cfg_py(cfg):
     return {k: (float(F_(cfg[k])) if isinstance(cfg[k], str) else cfg[k]) for k in CFG_KEYS}
 
 
+LAYOUTS = ("contig", "transposed", "strided", "batch_offset", "expanded")
+GAP = 777.0     # what the gaps of a non-contiguous buffer hold: a wrong stride shows up at once
+
+
+def embed(x, layout):
+    """The same logical (N, T, F) tensor in another memory layout (a view of a larger buffer)."""
+    import torch
+    N, T, Fq = x.shape
+    if layout == "contig":
+        return x
+    if layout == "transposed":      # storage order (N, F, T)
+        return x.transpose(1, 2).contiguous().transpose(1, 2)
+    if layout == "strided":         # every second frame / coefficient of a larger buffer, offset 1 in time
+        buf = torch.full((N, 2 * T + 1, 2 * Fq + 1), GAP, dtype=x.dtype)
+        v = buf[:, 1:2 * T:2, 0:2 * Fq:2]
+        v.copy_(x)
+        return v
+    if layout == "batch_offset":    # rows 1..N of a larger batch, padded in time
+        buf = torch.full((N + 2, T + 3, Fq), GAP, dtype=x.dtype)
+        v = buf[1:N + 1, :T]
+        v.copy_(x)
+        return v
+    if layout == "expanded":        # one element broadcast over the batch (stride 0)
+        return x[:1].expand(N, T, Fq)
+    raise ValueError(layout)
+
+
 def make_feats(case):
     import random
     import torch
@@ -131,7 +169,14 @@ def make_feats(case):
     else:
         g = torch.Generator().manual_seed(spec["seed"])
         x = torch.randn(N, T, Fq, generator=g).to(dt)
-    return x
+    return embed(x, case.get("layout", "contig"))
+
+
+def make_lens(case):
+    import torch
+    if case["lens"] is None:
+        return None
+    return torch.tensor(case["lens"], dtype=getattr(torch, case.get("lens_dtype", "int64")))
 
 
 class Api:
@@ -161,6 +206,24 @@ class Api:
 
     def forward(self, x, lens, training):
         if self.mod is not None:
+            if self.case.get("entry", "direct") == "parent":
+                # the way a user's model does it: SpecAugment is a sub-module and the mode is set on the parent
+                torch = self.torch
+
+                class Parent(torch.nn.Module):
+                    def __init__(self, sa):
+                        super().__init__()
+                        self.front = torch.nn.Identity()
+                        self.sa = sa
+
+                    def forward(self, x, lens):
+                        return self.sa(self.front(x), lens)
+                top = Parent(self.mod)
+                try:
+                    top.train() if training else top.eval()
+                    return top(x, lens)
+                finally:
+                    self.mod.train(True)
             self.mod.train(training)
             try:
                 return self.mod(x, lens)
@@ -186,18 +249,39 @@ def band(starts, widths, size):
     return ((ar >= starts.unsqueeze(1)) & (ar < (starts + widths).unsqueeze(1))).any(0)
 
 
+ALL_ON = {"max_time_warp": "2", "max_freq_warp": "1", "max_time_mask": 3, "max_freq_mask": 2,
+          "max_time_mask_proportion": "1/2", "num_time_mask": 2, "num_time_mask_proportion": "1/2",
+          "num_freq_mask": 2}
+EDGE_SHAPES = [(1, 1, [1]), (1, 1, [1, 1]), (2, 1, [1, 2]), (3, 1, [1, 3, 2]), (1, 3, [1]), (5, 1, [1, 5]),
+               (4, 2, [1, 1, 4]), (12, 5, [1, 12, 1]), (6, 1, None)]
+# what float16 adds to the tolerances (bilinear weights, the grid and the ramp are rounded to 11 bits)
+DT_POS = {"float32": 0.0, "float64": 0.0, "float16": 0.03}
+DT_REL = {"float32": 1e-5, "float64": 1e-5, "float16": 2.0 ** -7}
+DT_RANGE = {"float32": Fraction(1, 2 ** 18), "float64": Fraction(1, 2 ** 18), "float16": Fraction(1, 2 ** 8)}
+
+
+def f32(fr):
+    """Round a rational to the nearest float32 (so that case, implementation and model see the same number)."""
+    import numpy as np
+    return Fraction(float(np.float32(float(fr))))
+
+
 class C08(PropertyCheck):
     pid = "C08"
-    rule = ("one case = one SpecAugment call on a batch (N<=3 small / N<=6 large) or one warp_1d_grid call; "
-            "configurations from the grid of zero/non-zero limits, proportions {0,1/8,1/4,1/2,1,0.04,random}, "
-            "warps up to beyond half the length, orders 1-3; uniform draws injected through a shadowed torch.rand "
+    rule = ("one case = one SpecAugment call on a batch (N<=3 small / N<=6 large), one apply_parameters call on "
+            "user-supplied parameters, or one warp_1d_grid call on a batch of rows; "
+            "configurations from the grid of zero/non-zero limits (random + the enumerated 'exactly one limit 0'), "
+            "proportions {0,1/8,1/4,1/2,1,0.04,random}, warps up to beyond half the length, orders 1-3, "
+            "T, F and lengths down to 1, dtypes float32/64/16, five memory layouts, lengths None/int64/int32, "
+            "module direct or through a parent; uniform draws injected through a shadowed torch.rand "
             "(0, 2^-24, odd/16, k/8, 1-2^-24) or recorded from genuine torch.manual_seed runs. "
             "non-trivial: >= 1 mask of width > 0 or a non-zero warp; distinct by the whole case")
     assumptions = [
         "torch.rand shadowed in-process (feeds chosen float32 draws or records genuine ones); the model "
         "receives exactly those draws as rationals",
         "float32 rounding is not modelled: discrete outcomes are compared only when the margin rule holds, "
-        "continuous ones exactly when every intermediate is float32-representable and with a tolerance otherwise",
+        "continuous ones exactly when every intermediate is float32-representable and with a tolerance otherwise "
+        "(float16 features: a wider tolerance)",
         "grid_sample(bilinear, border, align_corners=False) and the order>=2 spline solve are torch "
         "primitives; orders >= 2 are checked by the predicate only",
     ]
@@ -208,7 +292,8 @@ class C08(PropertyCheck):
         self._stash = {}
         self.streams = {"cases_exact": 0, "cases_tolerance": 0, "cases_with_tie": 0, "cases_oracle": 0,
                         "mask_exact": 0, "mask_tie": 0, "warp_exact": 0, "warp_tolerance": 0,
-                        "apply_exact": 0, "apply_tolerance": 0, "grid_tolerance": 0}
+                        "apply_exact": 0, "apply_tolerance": 0, "grid_tolerance": 0,
+                        "params_cases": 0, "grid_rows": 0}
 
     # ------------------------------------------------------------------ generators
     def _draws(self, rng, cfg, N, style):
@@ -245,12 +330,26 @@ class C08(PropertyCheck):
         lens = [rng.randint(1, T) for _ in range(N)]
         if rng.random() < 0.5:
             lens[0] = T
+        if rng.random() < 0.2:
+            lens[rng.randrange(N)] = 1
         return lens
+
+    def _vary(self, rng, c, half_ok=True):
+        """Cross a case with the input classes that do not change what is specified: dtype, memory
+        layout, dtype of the lengths, how the module is entered."""
+        r = rng.random()
+        c["dtype"] = "float32" if r < 0.64 else "float64" if r < 0.82 or not half_ok else "float16"
+        c["layout"] = rng.choice(LAYOUTS[1:]) if rng.random() < 0.45 else "contig"
+        c["lens_dtype"] = "int32" if rng.random() < 0.2 else "int64"
+        c["entry"] = "parent" if c.get("api") == "module" and rng.random() < 0.45 else "direct"
+        return c
 
     def cases(self, rng, tier):
         n_small = {"quick": 260, "thorough": 2600, "search": 5000}[tier]
         n_big = {"quick": 50, "thorough": 500, "search": 800}[tier]
-        n_grid = {"quick": 120, "thorough": 1200, "search": 2000}[tier]
+        n_grid = {"quick": 140, "thorough": 1400, "search": 2000}[tier]
+        n_params = {"quick": 160, "thorough": 1600, "search": 2500}[tier]
+        reps = {"quick": 1, "thorough": 6, "search": 6}[tier]
         # -- hand-picked edge cases -------------------------------------------------------
         for T, ln in [(1, 1), (2, 1), (2, 2), (3, 3), (5, 4), (7, 7)]:
             for style in ("extreme", "dyadic"):
@@ -268,6 +367,33 @@ class C08(PropertyCheck):
             yield self._sa(rng, 1, ln, 2, [ln], cfg, 1,
                            {"mode": "inject", "u": self._draws(rng, cfg, 1, rng.choice(["extreme", "dyadic"]))},
                            "pos", rng.choice(["module", "functional"]))
+        # -- enumerated: exactly one of the eight limits is 0, all the others on (+ all on, all off) ------
+        for _ in range(reps):
+            for zero in [None, "all"] + list(CFG_KEYS):
+                cfg = dict(ALL_ON)
+                for k in (CFG_KEYS if zero == "all" else [zero] if zero else []):
+                    cfg[k] = "0" if isinstance(ALL_ON[k], str) else 0
+                for style, api in itertools.product(("extreme", "dyadic"), ("module", "functional")):
+                    lens = rng.choice([[8, 5], [8, 1], None, [3, 8]])
+                    c = self._sa(rng, 2, 8, 4, lens, cfg, 1,
+                                 {"mode": "inject", "u": self._draws(rng, cfg, 2, style)}, "pos", api)
+                    yield self._vary(rng, c)
+                c = self._sa(rng, 2, 8, 4, [8, 6], cfg, rng.choice([2, 3]),
+                             {"mode": "seed", "seed": rng.randrange(1 << 30)}, "randn", rng.choice(["module", "functional"]))
+                yield self._vary(rng, c)
+        # -- enumerated edge sizes: T = 1, F = 1, elements of length 1; every order ----------------------
+        for _ in range(reps):
+            for (T, Fq, lens), mtw, order in itertools.product(EDGE_SHAPES, ("80", "1/2"), (1, 2, 3)):
+                N = 1 if lens is None else len(lens)
+                cfg = {"max_time_warp": mtw, "max_freq_warp": rng.choice(["1", "1/2", "80"]), "max_time_mask": 2,
+                       "max_freq_mask": rng.choice([1, 27]), "max_time_mask_proportion": "1", "num_time_mask": 2,
+                       "num_time_mask_proportion": "1", "num_freq_mask": 1}
+                r = rng.random()
+                draw = {"mode": "seed", "seed": rng.randrange(1 << 30)} if r < 0.3 else \
+                    {"mode": "inject", "u": self._draws(rng, cfg, N, "extreme" if r < 0.65 else "dyadic")}
+                c = self._sa(rng, N, T, Fq, lens, cfg, order, draw, rng.choice(["pos", "randn"]),
+                             rng.choice(["module", "functional"]))
+                yield self._vary(rng, c)
         # -- small batches: exact / tolerance streams -------------------------------------------------
         for i in range(n_small):
             N, T, Fq = rng.randint(1, 3), rng.randint(1, 12), rng.randint(1, 5)
@@ -283,13 +409,14 @@ class C08(PropertyCheck):
                 draw = {"mode": "seed", "seed": rng.randrange(1 << 30)}
             c = self._sa(rng, N, T, Fq, self._lens(rng, N, T), cfg, order, draw,
                          rng.choice(["int", "pos", "randn"]), rng.choice(["module", "functional"]))
-            if rng.random() < 0.12:
-                c["dtype"] = "float64"
-            yield c
+            yield self._vary(rng, c)
+        # -- user-supplied parameters handed to apply_parameters ------------------------------------------
+        for i in range(n_params):
+            yield self._params_case(rng)
         # -- large batches: oracle-only stream -----------------------------------------------------------
         for i in range(n_big):
             T = rng.choice([20, 50, 100, 150, 300] if tier == "quick" else [20, 50, 100, 150, 300, 600, 1000])
-            N, Fq = rng.randint(2, 6), rng.choice([3, 8])
+            N, Fq = rng.randint(2, 6), rng.choice([1, 3, 8])
             if rng.random() < 0.5:
                 cfg = dict(DEFAULT_CFG)
             else:
@@ -297,6 +424,8 @@ class C08(PropertyCheck):
                 cfg["max_time_warp"] = rng.choice(["80", "5", frac_str(float(T)), frac_str(T / 2), "80"])
             order = rng.choice([1, 1, 1, 2, 3])
             lens = [rng.randint(max(1, T // 8), T) for _ in range(N)]
+            if rng.random() < 0.15:
+                lens[rng.randrange(N)] = 1
             r = rng.random()
             if r < 0.7:
                 draw = {"mode": "seed", "seed": rng.randrange(1 << 30)}
@@ -304,31 +433,85 @@ class C08(PropertyCheck):
                 draw = {"mode": "inject", "u": self._draws(rng, cfg, N, "extreme" if r < 0.85 else "random")}
             c = self._sa(rng, N, T, Fq, lens, cfg, order, draw, "randn", rng.choice(["module", "functional"]))
             c["big"] = True
-            yield c
-        # -- warp_1d_grid directly -------------------------------------------------------------------------
+            yield self._vary(rng, c, half_ok=False)
+        # -- warp_1d_grid directly (batches of rows) -------------------------------------------------------
         for i in range(n_grid):
             T = rng.choice([1, 2, 3, 5, 8, 13, 40]) if rng.random() < 0.8 else rng.choice([100, 400])
-            ln = rng.randint(1, T)
-            r = rng.random()
-            q = 4 if rng.random() < 0.7 else 1024
-            src = Fraction(rng.randint(-q, (ln + 1) * q), q)
-            if r < 0.3:      # destination on / next to a pinned end
-                d = rng.choice([Fraction(0), Fraction(ln - 1), Fraction(1, 1 << rng.randint(3, 20)),
-                                Fraction(ln - 1) - Fraction(1, 1 << rng.randint(3, 20)), Fraction(ln)])
-                flow = d - min(max(src, Fraction(0)), Fraction(ln - 1))
-            else:
-                flow = Fraction(rng.randint(-(ln + 1) * q, (ln + 1) * q), q)
-            yield {"kind": "grid", "T": T, "len": ln, "src": frac_str(src), "flow": frac_str(flow),
-                   "order": 1 if rng.random() < 0.8 else rng.choice([2, 3]),
-                   "max_length": rng.random() < 0.8}
+            rows = [self._grid_row(rng, T) for _ in range(rng.choice([1, 1, 2, 3]))]
+            c = dict(rows[0])
+            c.update({"kind": "grid", "T": T, "order": 1 if rng.random() < 0.8 else rng.choice([2, 3]),
+                      "max_length": rng.random() < 0.8, "api": rng.choice(["functional", "module"]),
+                      "lens_float": rng.random() < 0.3})
+            if len(rows) > 1:
+                c["more"] = rows[1:]
+            yield c
         # -- malformed ---------------------------------------------------------------------------------------
         for bad in ("len_zero", "len_big", "lens_shape", "feats_dim", "lens_batch"):
             for api in ("module", "functional"):
                 yield {"kind": "malformed", "bad": bad, "api": api}
 
+    def _grid_row(self, rng, T):
+        ln = rng.randint(1, T) if rng.random() < 0.85 else rng.choice([1, T])
+        r = rng.random()
+        q = 4 if rng.random() < 0.7 else 1024
+        src = Fraction(rng.randint(-q, (ln + 1) * q), q)
+        if r < 0.3:      # destination on / next to a pinned end
+            d = rng.choice([Fraction(0), Fraction(ln - 1), Fraction(1, 1 << rng.randint(3, 20)),
+                            Fraction(ln - 1) - Fraction(1, 1 << rng.randint(3, 20)), Fraction(ln)])
+            flow = d - min(max(src, Fraction(0)), Fraction(ln - 1))
+        else:
+            flow = Fraction(rng.randint(-(ln + 1) * q, (ln + 1) * q), q)
+        return {"len": ln, "src": frac_str(src), "flow": frac_str(flow)}
+
     def _sa(self, rng, N, T, Fq, lens, cfg, order, draw, feats_mode, api):
         return {"kind": "sa", "N": N, "T": T, "F": Fq, "lens": lens, "cfg": cfg, "order": order, "draw": draw,
                 "feats": {"mode": feats_mode, "seed": rng.randrange(1 << 30)}, "api": api, "big": False}
+
+    # ---- user-supplied parameters at the legal extremes
+    @staticmethod
+    def _warp_extreme(rng, size):
+        """(src, flow) with the knot / its destination on, next to or beyond the pinned ends."""
+        last = Fraction(size - 1)
+        tiny = Fraction(1, 1 << rng.randint(3, 20))
+        src = rng.choice([Fraction(0), last, last / 2, Fraction(size, 2), Fraction(1, 4), last - Fraction(1, 4),
+                          Fraction(-1), Fraction(size + 1), tiny, last - tiny,
+                          Fraction(rng.randint(0, 4 * size), 4)])
+        cs = min(max(src, Fraction(0)), last)
+        dst = rng.choice([Fraction(0), last, tiny, last - tiny, Fraction(size), Fraction(-1), last / 2, cs,
+                          Fraction(rng.randint(0, 4 * size), 4), Fraction(rng.randint(-4, 4 * size + 4), 4)])
+        src = f32(src)
+        flow = f32(dst - f32(min(max(src, Fraction(0)), last)))
+        return [frac_str(src), frac_str(flow)]
+
+    @staticmethod
+    def _mask_extreme(rng, size, full):
+        """(start, width): the whole axis, empty at either end, the last cell, inside, and - for the time
+        axis of a padded element - bands inside / across the padding."""
+        opts = [(0, size), (size, 0), (size - 1, 1), (0, 0), (0, 1), (0, max(size - 1, 0))]
+        a = rng.randint(0, size)
+        opts += [(a, rng.randint(0, size - a))] * 3
+        if full > size:
+            opts += [(size, full - size), (size - 1, 2), (rng.randint(0, size), full)]
+        s, w = rng.choice(opts)
+        return [s, w]
+
+    def _params_case(self, rng):
+        N, T, Fq = rng.randint(1, 3), rng.choice([1, 2, 3, 5, 8, 12]), rng.choice([1, 2, 3, 5])
+        lens = self._lens(rng, N, T)
+        eff = lens or [T] * N
+        has_tw, has_fw = rng.random() < 0.5, rng.random() < 0.35
+        MT, MF = rng.choice([0, 1, 2, 3]), rng.choice([0, 1, 2])
+        elems = []
+        for n in range(N):
+            elems.append({"warp_t": self._warp_extreme(rng, eff[n]) if has_tw else None,
+                          "warp_f": self._warp_extreme(rng, Fq) if has_fw else None,
+                          "tmasks": [self._mask_extreme(rng, eff[n], T) for _ in range(MT)],
+                          "fmasks": [self._mask_extreme(rng, Fq, Fq) for _ in range(MF)]})
+        c = {"kind": "params", "N": N, "T": T, "F": Fq, "lens": lens, "elems": elems,
+             "order": 1 if rng.random() < 0.75 else rng.choice([2, 3]),
+             "absent": rng.choice(["empty", "none"]), "api": rng.choice(["module", "functional"]),
+             "feats": {"mode": rng.choice(["int", "pos", "randn"]), "seed": rng.randrange(1 << 30)}}
+        return self._vary(rng, c)
 
     # ------------------------------------------------------------------ implementation
     def run_impl(self, case):
@@ -363,23 +546,91 @@ class C08(PropertyCheck):
                 res[name] = type(e).__name__
         return res
 
+    @staticmethod
+    def _grid_rows(case):
+        return [{"len": case["len"], "src": case["src"], "flow": case["flow"]}] + list(case.get("more", []))
+
+    @classmethod
+    def _grid_T(cls, case):
+        return case["T"] if case["max_length"] else max(r["len"] for r in cls._grid_rows(case))
+
     def _impl_grid(self, case):
         import torch
-        import pydrobert.torch.functional as Fn
-        T, ln = case["T"], case["len"]
-        g = Fn.warp_1d_grid(torch.tensor([float(F_(case["src"]))]), torch.tensor([float(F_(case["flow"]))]),
-                            torch.tensor([ln]), T if case["max_length"] else None, case["order"])
-        Tg = T if case["max_length"] else ln
-        pos = ((g[0].double() + 1) * Tg - 1) / 2
-        return {"shape": list(g.shape), "Tg": Tg, "finite": bool(torch.isfinite(g).all()),
-                "pos": [float(v) for v in pos]}
+        rows = self._grid_rows(case)
+        Tg = self._grid_T(case)
+        src = torch.tensor([float(F_(r["src"])) for r in rows])
+        flow = torch.tensor([float(F_(r["flow"])) for r in rows])
+        lens = torch.tensor([r["len"] for r in rows])
+        if case.get("lens_float"):
+            lens = lens.float()
+        ml = case["T"] if case["max_length"] else None
+        if case.get("api", "functional") == "module":
+            from pydrobert.torch.modules import Warp1DGrid
+            g = Warp1DGrid(ml, case["order"])(src, flow, lens)
+        else:
+            import pydrobert.torch.functional as Fn
+            g = Fn.warp_1d_grid(src, flow, lens, ml, case["order"])
+        pos = ((g.double() + 1) * Tg - 1) / 2
+        return {"shape": list(g.shape), "Tg": Tg, "finite": [bool(torch.isfinite(r).all()) for r in g],
+                "dtype": str(g.dtype).replace("torch.", ""),
+                "pos": [[float(v) for v in r] for r in pos]}
+
+    def _observe(self, case, api, x, lens, eff, params, out):
+        """Per batch element: what `apply_parameters` did, in the terms of the property."""
+        import torch
+        N, T, Fq = case["N"], case["T"], case["F"]
+        empty = torch.empty(0)
+
+        def on(p):
+            return p is not None and p.numel() > 0
+        w0, w, v0, v, t0, t, f0, f = params
+        has_tw, has_fw = on(w0) and on(w), on(v0) and on(v)
+        has_tm, has_fm = on(t0) and on(t), on(f0) and on(f)
+        warp_only = (w0, w, v0, v, empty, empty, empty, empty)
+        base = api.apply(x, warp_only, lens) if (has_tw or has_fw) else x
+        tpos = fpos = None
+        if has_tw:
+            ramp = torch.arange(T, dtype=x.dtype).view(1, T, 1).expand(N, T, Fq).contiguous()
+            tpos = api.apply(ramp, (w0, w, empty, empty, empty, empty, empty, empty), lens)[:, :, 0]
+        if has_fw:
+            ramp = torch.arange(Fq, dtype=x.dtype).view(1, 1, Fq).expand(N, T, Fq).contiguous()
+            fpos = api.apply(ramp, (empty, empty, v0, v, empty, empty, empty, empty), lens)[:, 0, :]
+        elems = []
+        shape_ok = list(out.shape) == [N, T, Fq] and list(base.shape) == [N, T, Fq]
+        for n in range(N if shape_ok else 0):
+            tm = band(t0[n], t[n], T) if has_tm else torch.zeros(T, dtype=torch.bool)
+            fm = band(f0[n], f[n], Fq) if has_fm else torch.zeros(Fq, dtype=torch.bool)
+            m = tm.unsqueeze(1) | fm.unsqueeze(0)
+            o, bn = out[n], base[n]
+            expect = torch.where(m, torch.zeros_like(bn), bn)
+            fin = bool(torch.isfinite(o).all())
+            e = {"len": eff[n],
+                 "params": {"warp_t": [frac_str(float(w0[n])), frac_str(float(w[n]))] if has_tw else None,
+                            "warp_f": [frac_str(float(v0[n])), frac_str(float(v[n]))] if has_fw else None,
+                            "tmasks": [[int(a), int(b)] for a, b in zip(t0[n], t[n])] if has_tm else [],
+                            "fmasks": [[int(a), int(b)] for a, b in zip(f0[n], f[n])] if has_fm else []},
+                 "masked_zero": bool((o[m] == 0).all()),
+                 "unmasked_same": bit_equal(torch.where(m, torch.zeros_like(o), o), expect),
+                 "n_masked": int(m.sum()),
+                 "finite": fin,
+                 "in_lo": frac_str(float(x[n].min())), "in_hi": frac_str(float(x[n].max())),
+                 "out_lo": frac_str(float(o.min())) if fin else "nan",
+                 "out_hi": frac_str(float(o.max())) if fin else "nan",
+                 "tpos": [float(p) for p in tpos[n]] if tpos is not None else None,
+                 "fpos": [float(p) for p in fpos[n]] if fpos is not None else None}
+            if not case.get("big"):
+                e["out"] = t2frac(o)
+                e["feats"] = t2frac(x[n])
+            elems.append(e)
+        return elems
 
     def _impl_sa(self, case):
         import torch
-        N, T, Fq = case["N"], case["T"], case["F"]
+        N, T = case["N"], case["T"]
         x = make_feats(case)
+        x_before = x.clone()
         lens_l = case["lens"]
-        lens = None if lens_l is None else torch.tensor(lens_l)
+        lens = make_lens(case)
         eff = [T] * N if lens_l is None else lens_l
         api = Api(case)
         feed = case["draw"]["u"] if case["draw"]["mode"] == "inject" else None
@@ -396,62 +647,72 @@ class C08(PropertyCheck):
             fwd = api.forward(x, lens, True)
         with seeded():
             ev = api.forward(x, lens, False)
-        empty = torch.empty(0)
-        w0, w, v0, v, t0, t, f0, f = params
-        warp_only = (w0, w, v0, v, empty, empty, empty, empty)
-        has_tw = bool(w0.numel() and w.numel())
-        has_fw = bool(v0.numel() and v.numel())
-        base = api.apply(x, warp_only, lens) if (has_tw or has_fw) else x
+        with seeded():      # training again after evaluation: the mode switch must not stick
+            fwd2 = api.forward(x, lens, True)
         obs = {"rand_ok": rp.ok, "rand_shapes": rp.shapes,
                "shapes": {n: list(p.shape) for n, p in zip(("w_0", "w", "v_0", "v", "t_0", "t", "f_0", "f"), params)},
                "out_shape": list(out.shape), "out_dtype": str(out.dtype).replace("torch.", ""),
-               "forward_same": bit_equal(fwd, out), "eval_same": bit_equal(ev, x), "u": u, "elems": []}
-        tpos = fpos = None
-        if has_tw:
-            ramp = torch.arange(T, dtype=x.dtype).view(1, T, 1).expand(N, T, Fq).contiguous()
-            tpos = api.apply(ramp, warp_only, lens)[:, :, 0]
-        if has_fw:
-            ramp = torch.arange(Fq, dtype=x.dtype).view(1, 1, Fq).expand(N, T, Fq).contiguous()
-            fpos = api.apply(ramp, warp_only, lens)[:, 0, :]
-        for n in range(N):
-            tm = band(t0[n], t[n], T) if (t0.numel() and t.numel()) else torch.zeros(T, dtype=torch.bool)
-            fm = band(f0[n], f[n], Fq) if (f0.numel() and f.numel()) else torch.zeros(Fq, dtype=torch.bool)
-            m = tm.unsqueeze(1) | fm.unsqueeze(0)
-            on, bn = out[n], base[n]
-            expect = torch.where(m, torch.zeros_like(bn), bn)
-            e = {"len": eff[n],
-                 "params": {"warp_t": [frac_str(float(w0[n])), frac_str(float(w[n]))] if has_tw else None,
-                            "warp_f": [frac_str(float(v0[n])), frac_str(float(v[n]))] if has_fw else None,
-                            "tmasks": [[int(a), int(b)] for a, b in zip(t0[n], t[n])] if t0.numel() and t.numel() else [],
-                            "fmasks": [[int(a), int(b)] for a, b in zip(f0[n], f[n])] if f0.numel() and f.numel() else []},
-                 "masked_zero": bool((on[m] == 0).all()),
-                 "unmasked_same": bit_equal(torch.where(m, torch.zeros_like(on), on), expect),
-                 "n_masked": int(m.sum()),
-                 "finite": bool(torch.isfinite(on).all()),
-                 "in_lo": frac_str(float(x[n].min())), "in_hi": frac_str(float(x[n].max())),
-                 "out_lo": frac_str(float(on.min())) if bool(torch.isfinite(on).all()) else "nan",
-                 "out_hi": frac_str(float(on.max())) if bool(torch.isfinite(on).all()) else "nan",
-                 "tpos": [float(p) for p in tpos[n]] if tpos is not None else None,
-                 "fpos": [float(p) for p in fpos[n]] if fpos is not None else None}
-            if not case.get("big"):
-                e["out"] = t2frac(on)
-                e["feats"] = t2frac(x[n])
-            obs["elems"].append(e)
+               "forward_same": bit_equal(fwd, out), "retrain_same": bit_equal(fwd2, out),
+               "eval_same": bit_equal(ev, x), "u": u,
+               "elems": self._observe(case, api, x, lens, eff, params, out),
+               "input_unchanged": bit_equal(x, x_before)}
+        self._stash[self.key(case)] = obs
+        return obs
+
+    def _impl_params(self, case):
+        import torch
+        N, T = case["N"], case["T"]
+        x = make_feats(case)
+        x_before = x.clone()
+        lens = make_lens(case)
+        eff = [T] * N if case["lens"] is None else case["lens"]
+        api = Api({"cfg": DEFAULT_CFG, "order": case["order"], "api": case["api"]})
+        absent = None if case["absent"] == "none" else torch.empty(0)
+        el = case["elems"]
+
+        def warp(key, i):
+            if el[0][key] is None:
+                return absent
+            return torch.tensor([float(F_(e[key][i])) for e in el], dtype=torch.float32)
+
+        def masks(key, i):
+            if not el[0][key]:
+                return absent
+            return torch.tensor([[m[i] for m in e[key]] for e in el], dtype=torch.long)
+        params = (warp("warp_t", 0), warp("warp_t", 1), warp("warp_f", 0), warp("warp_f", 1),
+                  masks("tmasks", 0), masks("tmasks", 1), masks("fmasks", 0), masks("fmasks", 1))
+        out = api.apply(x, params, lens)
+        again = api.apply(x, params, lens)
+        obs = {"out_shape": list(out.shape), "out_dtype": str(out.dtype).replace("torch.", ""),
+               "deterministic": bit_equal(out, again),
+               "elems": self._observe(case, api, x, lens, eff, params, out),
+               "input_unchanged": bit_equal(x, x_before)}
         self._stash[self.key(case)] = obs
         return obs
 
     # ------------------------------------------------------------------ model
+    @staticmethod
+    def _no_warp(e):
+        return e["params"]["warp_t"] is None and e["params"]["warp_f"] is None
+
     def model_request(self, case):
         if case["kind"] == "malformed":
             return None
         if case["kind"] == "grid":
             if case["order"] != 1:
                 return None
-            T = case["T"] if case["max_length"] else case["len"]
-            return {"op": "c08.grid", "case": {"T": T, "len": case["len"], "src": case["src"], "flow": case["flow"],
-                                               "eps": frac_str(EPS32)}}
+            return {"op": "c08.grid", "case": {"T": self._grid_T(case), "eps": frac_str(EPS32),
+                                               "rows": self._grid_rows(case)}}
         obs = self._stash.pop(self.key(case), None)
-        if obs is None or not obs.get("rand_ok"):
+        if obs is None:
+            return None
+        if case["kind"] == "params":
+            if len(obs["elems"]) != case["N"] or not (case["order"] == 1 or all(self._no_warp(e) for e in obs["elems"])):
+                return None
+            return {"op": "c08.apply", "case": {
+                "T": case["T"], "F": case["F"], "eps_grid": frac_str(EPS32),
+                "items": [{"len": e["len"], "feats": e["feats"], "params": e["params"]} for e in obs["elems"]]}}
+        if not obs.get("rand_ok") or len(obs["elems"]) != case["N"]:
             return None
         N = case["N"]
         eps = {"float32": EPS32, "float64": Fraction(1, 2 ** 52), "float16": Fraction(1, 2 ** 10)}[
@@ -467,10 +728,12 @@ class C08(PropertyCheck):
                     u[name] = "0" if name in ("w0", "w", "v0", "v") else []
                 else:
                     u[name] = v[n]
-            it = {"len": obs["elems"][n]["len"], "u": u}
-            if not case.get("big") and case["order"] == 1:
-                it["feats"] = obs["elems"][n]["feats"]
-                it["params"] = obs["elems"][n]["params"]
+            e = obs["elems"][n]
+            it = {"len": e["len"], "u": u}
+            # orders >= 2 are not modelled; their mask-only applications are the same code path as order 1
+            if not case.get("big") and (case["order"] == 1 or self._no_warp(e)):
+                it["feats"] = e["feats"]
+                it["params"] = e["params"]
             items.append(it)
         return {"op": "c08.sa", "case": {"T": case["T"], "F": case["F"], "cfg": cfg, "eps_grid": frac_str(EPS32),
                                          "items": items}}
@@ -484,21 +747,72 @@ class C08(PropertyCheck):
         # a product of non-negative floats never rounds below 0: near 0 only the upper boundary matters
         return (fl + 1 - p > m) and (fl == 0 and p >= 0 or p - fl > m)
 
-    def pos_tol(self, T):
-        return 2e-3 + 3e-5 * T
+    def pos_tol(self, T, dtype="float32"):
+        return 2e-3 + 3e-5 * T + DT_POS[dtype] + (2.0 ** -9 * T if dtype == "float16" else 0.0)
+
+    def _cmp_grid(self, case, impl, model):
+        if "error" in impl:
+            return [f"warp_1d_grid raised {impl['error']}: {impl.get('message')}"]
+        out = []
+        tol = self.pos_tol(impl["Tg"])
+        for i, (row, m) in enumerate(zip(self._grid_rows(case), model["rows"])):
+            if i >= len(impl["pos"]):
+                break
+            # outside the valid frames the model is the identity continuation; compare everywhere
+            mp = [float(F_(self._raw_pos(g, impl["Tg"]))) for g in m["grid"]]
+            bad = [(j, a, b) for j, (a, b) in enumerate(zip(impl["pos"][i], mp)) if not (abs(a - b) <= tol)]
+            self.streams["grid_tolerance"] += 1
+            if len(mp) != len(impl["pos"][i]):
+                out.append(f"row {i}: grid has {len(impl['pos'][i])} frames, the model {len(mp)}")
+            elif bad:
+                out.append(f"row {i}: warp_1d_grid read position differs at frame {bad[0][0]}: impl={bad[0][1]} "
+                           f"model={bad[0][2]} (len={row['len']}, {len(bad)} frames)")
+            if not m["spec"]["stable_eq"]:
+                out.append(f"row {i}: model-internal: the literal float-stable evaluation differs from the closed form")
+        return out
+
+    def _cmp_apply(self, case, n, e, ap, out):
+        """Application: the model applied the implementation's own / the user's parameters."""
+        dtype = case.get("dtype", "float32")
+        ip = e["params"]
+        if ip["warp_t"] is None and ip["warp_f"] is None:
+            self.streams["apply_exact"] += 1
+            if e["out"] != ap["out"]:
+                out.append(f"elem {n}: masked output differs from the model cell by cell")
+            return "exact"
+        self.streams["apply_tolerance"] += 1
+        lo, hi = F_(e["in_lo"]), F_(e["in_hi"])
+        tolv = float(hi - lo) * (4 * self.pos_tol(max(case["T"], case["F"])) + 2 * DT_REL[dtype]) \
+            + DT_REL[dtype] * float(max(abs(lo), abs(hi)))
+        worst = 0.0
+        for ra, rb in zip(e["out"], ap["out"]):
+            for a, b in zip(ra, rb):
+                if a in ("nan", "inf", "-inf"):
+                    worst = float("inf")
+                else:
+                    worst = max(worst, abs(float(F_(a) - F_(b))))
+        if worst > tolv:
+            out.append(f"elem {n}: warped output differs from the model by {worst} (tolerance {tolv})")
+        for nm, key, size in (("tpos", "time_pos", case["T"]), ("fpos", "freq_pos", case["F"])):
+            if e[nm] is not None and ap[key] is not None:
+                tol = self.pos_tol(size, dtype)
+                for j, (a, b) in enumerate(zip(e[nm], ap[key])):
+                    if not abs(a - float(F_(b))) <= tol:
+                        out.append(f"elem {n}: {nm}[{j}] read position impl={a} model={float(F_(b))}")
+                        break
+        return "tolerance"
 
     def compare(self, case, impl, model):
         if case["kind"] == "grid":
+            return self._cmp_grid(case, impl, model)
+        if case["kind"] == "params":
             if "error" in impl:
-                return [f"warp_1d_grid raised {impl['error']}: {impl.get('message')}"]
-            tol = self.pos_tol(impl["Tg"])
-            ln = case["len"]
-            # outside the valid frames the model is the identity continuation; compare everywhere
-            mp = [float(F_(self._raw_pos(g, impl["Tg"]))) for g in model["grid"]]
-            bad = [(j, a, b) for j, (a, b) in enumerate(zip(impl["pos"], mp)) if not (abs(a - b) <= tol)]
-            self.streams["grid_tolerance"] += 1
-            return [f"warp_1d_grid read position differs at frame {bad[0][0]}: impl={bad[0][1]} model={bad[0][2]} "
-                    f"(len={ln}, {len(bad)} frames)"] if bad else []
+                return [f"apply_parameters raised {impl['error']}: {impl.get('message')}"]
+            out = []
+            self.streams["params_cases"] += 1
+            for n, (e, m) in enumerate(zip(impl["elems"], model["items"])):
+                self._cmp_apply(case, n, e, m["apply"], out)
+            return out
         if case["kind"] != "sa":
             return []
         if "error" in impl:
@@ -564,31 +878,8 @@ class C08(PropertyCheck):
             ap = m.get("apply")
             if ap is None:
                 continue
-            if ip["warp_t"] is None and ip["warp_f"] is None:
-                self.streams["apply_exact"] += 1
-                if e["out"] != ap["out"]:
-                    out.append(f"elem {n}: masked output differs from the model cell by cell")
-            else:
-                self.streams["apply_tolerance"] += 1
-                case_stream = "tolerance" if case_stream == "exact" else case_stream
-                lo, hi = F_(e["in_lo"]), F_(e["in_hi"])
-                tolv = float(hi - lo) * 4 * self.pos_tol(max(case["T"], case["F"])) + 1e-5 * float(max(abs(lo), abs(hi)))
-                worst = 0.0
-                for ra, rb in zip(e["out"], ap["out"]):
-                    for a, b in zip(ra, rb):
-                        if a in ("nan", "inf", "-inf"):
-                            worst = float("inf")
-                        else:
-                            worst = max(worst, abs(float(F_(a) - F_(b))))
-                if worst > tolv:
-                    out.append(f"elem {n}: warped output differs from the model by {worst} (tolerance {tolv})")
-                for nm, key, size in (("tpos", "time_pos", case["T"]), ("fpos", "freq_pos", case["F"])):
-                    if e[nm] is not None and ap[key] is not None:
-                        tol = self.pos_tol(size)
-                        for j, (a, b) in enumerate(zip(e[nm], ap[key])):
-                            if not abs(a - float(F_(b))) <= tol:
-                                out.append(f"elem {n}: {nm}[{j}] read position impl={a} model={float(F_(b))}")
-                                break
+            if self._cmp_apply(case, n, e, ap, out) == "tolerance" and case_stream == "exact":
+                case_stream = "tolerance"
         if case.get("big"):
             case_stream = "oracle"
         self.streams[{"exact": "cases_exact", "tolerance": "cases_tolerance", "tie": "cases_with_tie",
@@ -600,6 +891,47 @@ class C08(PropertyCheck):
         return str((F_(g) + 1) * T / 2 - Fraction(1, 2))
 
     # ------------------------------------------------------------------ the property on the implementation
+    def _pred_apply(self, case, n, e, fails):
+        """What the property says about one element of an `apply_parameters` output."""
+        dtype = case.get("dtype", "float32")
+        T, Fq, ln, p = case["T"], case["F"], e["len"], e["params"]
+        if not e["masked_zero"]:
+            fails.append((f"elem {n}: a masked cell is not zero", None))
+        if not e["unmasked_same"]:
+            fails.append((f"elem {n}: an unmasked cell is not bit-identical to the "
+                          + ("input" if self._no_warp(e) else "warp-only output"), None))
+        if not e["finite"]:
+            fails.append((f"elem {n}: non-finite value in the output (order {case['order']})",
+                          self._sig(case, e)))
+        else:
+            lo, hi = F_(e["in_lo"]), F_(e["in_hi"])
+            if e["n_masked"]:
+                lo, hi = min(lo, 0), max(hi, 0)
+            tol = DT_RANGE[dtype] * max(abs(lo), abs(hi), 1)
+            if not (lo - tol <= F_(e["out_lo"]) and F_(e["out_hi"]) <= hi + tol):
+                fails.append((f"elem {n}: output range [{float(F_(e['out_lo']))}, {float(F_(e['out_hi']))}] "
+                              f"outside the input range [{float(lo)}, {float(hi)}] (order {case['order']})",
+                              self._sig(case, e)))
+        if case["order"] == 1:
+            for nm, key, size, full in (("tpos", "warp_t", ln, T), ("fpos", "warp_f", Fq, Fq)):
+                if e[nm] is None:
+                    continue
+                msg = self._read_order(e[nm][:size], size, self.pos_tol(full, dtype))
+                if msg:
+                    fails.append((f"elem {n}: linear {key}: {msg} (len={size}, params={p[key]})",
+                                  self._sig(case, e, key, size)))
+
+    def _pred_common(self, case, impl, fails):
+        N, T, Fq = case["N"], case["T"], case["F"]
+        if impl["out_shape"] != [N, T, Fq]:
+            fails.append((f"output shape {impl['out_shape']} != input shape {[N, T, Fq]}", None))
+        if impl["out_dtype"] != case.get("dtype", "float32"):
+            fails.append((f"output dtype {impl['out_dtype']} != input dtype {case.get('dtype', 'float32')}", None))
+        if not impl["input_unchanged"]:
+            fails.append(("the input tensor was modified in place", None))
+        if len(impl["elems"]) != N:
+            fails.append(("the output could not be examined per element (wrong shape)", None))
+
     def predicate(self, case, impl, model):
         kind = case["kind"]
         if kind == "malformed":
@@ -615,13 +947,21 @@ class C08(PropertyCheck):
                                                and "expected scalar type" in str(impl.get("message"))) else None
             return [(f"SpecAugment raised {impl['error']} on an in-domain input: {impl.get('message')}", sig)]
         fails = []
+        self._pred_common(case, impl, fails)
+        if kind == "params":
+            if not impl["deterministic"]:
+                fails.append(("apply_parameters gave two different outputs for the same parameters", None))
+            for n, e in enumerate(impl["elems"]):
+                self._pred_apply(case, n, e, fails)
+            return fails
         N, T, Fq, cfg = case["N"], case["T"], case["F"], case["cfg"]
-        if impl["out_shape"] != [N, T, Fq]:
-            fails.append((f"output shape {impl['out_shape']} != input shape {[N, T, Fq]}", None))
         if not impl["eval_same"]:
             fails.append(("evaluation mode did not return the input unchanged", None))
         if not impl["forward_same"]:
             fails.append(("forward pass differs from apply_parameters(draw_parameters) under the same draws", None))
+        if not impl.get("retrain_same", True):
+            fails.append(("forward pass in training mode after an evaluation-mode call differs from "
+                          "apply_parameters(draw_parameters) under the same draws", None))
         exp = dict(expected_calls(cfg, N))
         for pn, un in (("w_0", "w0"), ("w", "w"), ("v_0", "v0"), ("v", "v"), ("t_0", "t0"), ("t", "t"),
                        ("f_0", "f0"), ("f", "f")):
@@ -672,31 +1012,7 @@ class C08(PropertyCheck):
                 if not (-tol <= c0 + sh <= size + tol):
                     fails.append((f"elem {n}: {key} destination {float(c0 + sh)} outside [0, {size}]", None))
             # ---- application
-            if not e["masked_zero"]:
-                fails.append((f"elem {n}: a masked cell is not zero", None))
-            if not e["unmasked_same"]:
-                fails.append((f"elem {n}: an unmasked cell is not bit-identical to the "
-                              + ("input" if p["warp_t"] is None and p["warp_f"] is None else "warp-only output"), None))
-            if not e["finite"]:
-                fails.append((f"elem {n}: non-finite value in the output (order {case['order']})",
-                              self._sig(case, e)))
-            else:
-                lo, hi = F_(e["in_lo"]), F_(e["in_hi"])
-                if e["n_masked"]:
-                    lo, hi = min(lo, 0), max(hi, 0)
-                tol = Fraction(1, 2 ** 18) * max(abs(lo), abs(hi), 1)
-                if not (lo - tol <= F_(e["out_lo"]) and F_(e["out_hi"]) <= hi + tol):
-                    fails.append((f"elem {n}: output range [{float(F_(e['out_lo']))}, {float(F_(e['out_hi']))}] "
-                                  f"outside the input range [{float(lo)}, {float(hi)}] (order {case['order']})",
-                                  self._sig(case, e)))
-            if case["order"] == 1:
-                for nm, key, size, full in (("tpos", "warp_t", ln, T), ("fpos", "warp_f", Fq, Fq)):
-                    if e[nm] is None:
-                        continue
-                    msg = self._read_order(e[nm][:size], size, self.pos_tol(full))
-                    if msg:
-                        fails.append((f"elem {n}: linear {key}: {msg} (len={size}, params={p[key]})",
-                                      self._sig(case, e, key, size)))
+            self._pred_apply(case, n, e, fails)
         return fails
 
     @staticmethod
@@ -728,28 +1044,32 @@ class C08(PropertyCheck):
         return None
 
     def _pred_grid(self, case, impl):
+        rows = self._grid_rows(case)
+        near = any(self._gap([r["src"], r["flow"]], r["len"]) < 2.0 for r in rows)
         if "error" in impl:
-            return [(f"warp_1d_grid raised {impl['error']}: {impl.get('message')}",
-                     SIG_NEAR_END if self._gap([case["src"], case["flow"]], case["len"]) < 2.0 else None)]
+            return [(f"warp_1d_grid raised {impl['error']}: {impl.get('message')}", SIG_NEAR_END if near else None)]
         fails = []
-        Tg, ln = impl["Tg"], case["len"]
-        if impl["shape"] != [1, Tg]:
-            fails.append((f"grid shape {impl['shape']} != [1, {Tg}]", None))
-        sig = SIG_NEAR_END if self._gap([case["src"], case["flow"]], ln) < 2.0 else None
-        if not impl["finite"]:
-            fails.append((f"non-finite grid (order {case['order']})", sig))
-        elif case["order"] == 1:
-            pos = [min(max(v, 0.0), Tg - 1.0) for v in impl["pos"][:ln]]
-            msg = self._read_order(pos, ln, self.pos_tol(Tg))
-            if msg:
-                fails.append((f"linear warp_1d_grid: {msg} (len={ln}, src={case['src']}, flow={case['flow']})", sig))
+        Tg = impl["Tg"]
+        if impl["shape"] != [len(rows), Tg]:
+            fails.append((f"grid shape {impl['shape']} != [{len(rows)}, {Tg}]", None))
+            return fails
+        for i, r in enumerate(rows):
+            ln = r["len"]
+            sig = SIG_NEAR_END if self._gap([r["src"], r["flow"]], ln) < 2.0 else None
+            if not impl["finite"][i]:
+                fails.append((f"row {i}: non-finite grid (order {case['order']})", sig))
+            elif case["order"] == 1:
+                pos = [min(max(v, 0.0), Tg - 1.0) for v in impl["pos"][i][:ln]]
+                msg = self._read_order(pos, ln, self.pos_tol(Tg))
+                if msg:
+                    fails.append((f"row {i}: linear warp_1d_grid: {msg} (len={ln}, src={r['src']}, flow={r['flow']})", sig))
         return fails
 
     # ------------------------------------------------------------------ bookkeeping
     def nontrivial(self, case, impl):
         if case["kind"] == "grid":
-            return F_(case["flow"]) != 0
-        if case["kind"] != "sa" or "error" in impl:
+            return any(F_(r["flow"]) != 0 for r in self._grid_rows(case))
+        if case["kind"] not in ("sa", "params") or "error" in impl:
             return False
         for e in impl["elems"]:
             p = e["params"]
@@ -766,21 +1086,55 @@ class C08(PropertyCheck):
     def tags(self, case, impl):
         t = ["kind=" + case["kind"]]
         if case["kind"] == "grid":
-            t.append(f"order={case['order']}")
-            if self._gap([case["src"], case["flow"]], case["len"]) < 1e-3:
-                t.append("grid:knot_on_pinned_end")
+            rows = self._grid_rows(case)
+            t += [f"order={case['order']}", f"grid:rows={len(rows)}", "grid:api=" + case.get("api", "functional"),
+                  "grid:lens=" + ("float" if case.get("lens_float") else "long"),
+                  "grid:max_length=" + ("given" if case["max_length"] else "None")]
+            for r in rows:
+                if self._gap([r["src"], r["flow"]], r["len"]) < 1e-3:
+                    t.append("grid:knot_on_pinned_end")
+                if r["len"] == 1:
+                    t.append("grid:len=1")
             return t
-        if case["kind"] != "sa":
+        if case["kind"] not in ("sa", "params"):
+            return t
+        eff = case["lens"] or [case["T"]] * case["N"]
+        t += [f"order={case['order']}", "api=" + case["api"], "dtype=" + case.get("dtype", "float32"),
+              "layout=" + case.get("layout", "contig"), "entry=" + case.get("entry", "direct"),
+              "lens=None" if case["lens"] is None else "lens=" + case.get("lens_dtype", "int64")]
+        if 1 in eff:
+            t.append("has_len=1")
+        if case["T"] == 1:
+            t.append("T=1")
+        if case["F"] == 1:
+            t.append("F=1")
+        if case["kind"] == "params":
+            t.append("params:absent=" + case["absent"])
+            el = case["elems"]
+            t.append("params:time_warp=" + ("on" if el[0]["warp_t"] else "off"))
+            t.append("params:freq_warp=" + ("on" if el[0]["warp_f"] else "off"))
+            t.append("params:time_mask=" + ("on" if el[0]["tmasks"] else "off"))
+            t.append("params:freq_mask=" + ("on" if el[0]["fmasks"] else "off"))
+            for e, ln in zip(el, eff):
+                for k, s in (("warp_t", ln), ("warp_f", case["F"])):
+                    if e[k] is not None and self._gap(e[k], s) < 1e-3:
+                        t.append("params:knot_on_pinned_end")
+                if any(s + w > ln for s, w in e["tmasks"]):
+                    t.append("params:mask_in_padding")
+                if any(w == ln and s == 0 for s, w in e["tmasks"]) or any(w == case["F"] and s == 0 for s, w in e["fmasks"]):
+                    t.append("params:mask_whole_axis")
             return t
         cfg = case["cfg"]
-        t += [f"order={case['order']}", "draw=" + case["draw"]["mode"], "api=" + case["api"],
-              "big" if case.get("big") else "small", "dtype=" + case.get("dtype", "float32"), "lens=None" if case["lens"] is None else "lens=given"]
+        t += ["draw=" + case["draw"]["mode"], "big" if case.get("big") else "small"]
         t.append("time_warp=" + ("off" if F_(cfg["max_time_warp"]) == 0 else
                                  "beyond_half" if F_(cfg["max_time_warp"]) * 2 >= case["T"] else "on"))
         t.append("freq_warp=" + ("off" if F_(cfg["max_freq_warp"]) == 0 else "on"))
         names = dict(expected_calls(cfg, case["N"]))
         t.append("time_mask=" + ("on" if "t" in names else "off"))
         t.append("freq_mask=" + ("on" if "f" in names else "off"))
+        zeros = [k for k in CFG_KEYS if F_(cfg[k]) == 0]
+        t.append("zero_limits=" + ("none" if not zeros else "all" if len(zeros) == 8 else
+                                   "only:" + zeros[0] if len(zeros) == 1 else "several"))
         for k in ("max_time_mask_proportion", "num_time_mask_proportion"):
             v = F_(cfg[k])
             t.append(f"{k}=" + (str(v) if v.denominator <= 8 else "0.04" if cfg[k] == frac_str(0.04) else "other"))
@@ -798,12 +1152,47 @@ class C08(PropertyCheck):
         return t
 
     def shrink(self, case):
-        if case["kind"] != "sa":
+        if case["kind"] == "grid" and case.get("more"):
+            c = dict(case)
+            c.pop("more")
+            yield c
+            for r in case["more"]:
+                c = dict(case)
+                c.pop("more")
+                c.update(r)
+                yield c
+            return
+        if case["kind"] not in ("sa", "params"):
+            return
+        # the input classes first: the plain variant of the same call
+        for k, plain in (("layout", "contig"), ("dtype", "float32"), ("lens_dtype", "int64"), ("entry", "direct")):
+            if case.get(k, plain) != plain:
+                c = dict(case)
+                c[k] = plain
+                yield c
+        if case["kind"] == "params":
+            N = case["N"]
+            if N > 1:
+                for n in range(N):
+                    c = dict(case)
+                    c["N"] = N - 1
+                    if case["lens"] is not None:
+                        c["lens"] = case["lens"][:n] + case["lens"][n + 1:]
+                    c["elems"] = case["elems"][:n] + case["elems"][n + 1:]
+                    yield c
+            for k, none in (("warp_t", None), ("warp_f", None), ("tmasks", []), ("fmasks", [])):
+                if case["elems"][0][k]:
+                    c = dict(case)
+                    c["elems"] = [dict(e, **{k: none}) for e in case["elems"]]
+                    yield c
+            for k in ("tmasks", "fmasks"):
+                if len(case["elems"][0][k]) > 1:
+                    c = dict(case)
+                    c["elems"] = [dict(e, **{k: e[k][:-1]}) for e in case["elems"]]
+                    yield c
             return
         if case["draw"]["mode"] == "seed":
-            if case["N"] > 1 and case["lens"] is not None:
-                for n in range(case["N"]):
-                    pass  # dropping an element changes the genuine draws; shrink the sizes instead
+            # dropping an element changes the genuine draws; shrink the sizes instead
             for k, lo in (("F", 1),):
                 if case[k] > lo:
                     c = dict(case)
@@ -825,12 +1214,18 @@ class C08(PropertyCheck):
                 c = dict(case)
                 c["cfg"] = dict(case["cfg"])
                 c["cfg"][k] = 0
+                if case["draw"]["mode"] == "inject":
+                    keep = dict(expected_calls(c["cfg"], case["N"]))
+                    c["draw"] = {"mode": "inject", "u": {a: b for a, b in case["draw"]["u"].items() if a in keep}}
                 yield c
         for k in ("max_time_warp", "max_freq_warp"):
             if F_(case["cfg"][k]) != 0:
                 c = dict(case)
                 c["cfg"] = dict(case["cfg"])
                 c["cfg"][k] = "0"
+                if case["draw"]["mode"] == "inject":
+                    keep = dict(expected_calls(c["cfg"], case["N"]))
+                    c["draw"] = {"mode": "inject", "u": {a: b for a, b in case["draw"]["u"].items() if a in keep}}
                 yield c
         if case["feats"]["mode"] != "pos":
             c = dict(case)
